@@ -159,6 +159,16 @@ func oracleC02(x *Exec, r *StepRec) {
 			x.viol("C02", "escrow_moved", "escrow balance changed in BeginBlock", nil)
 		}
 		checkAll = false
+	case "export":
+		// zero-height export and restart: pending fees go back to the consumers, earnings to the providers
+		exp = expectedZeroHeightRefunds(pre)
+		expEarned = map[string]int64{}
+		ignore[hx(feeCollAcc)] = true
+		for a, n := range moduleAddrs {
+			if n != types.RequestAccName && n != types.DepositAccName {
+				ignore[a] = true // other modules' own zero-height preparation
+			}
+		}
 	case "mod":
 		// keeper API calls of the foreign module move no money
 	case "end":
@@ -290,7 +300,7 @@ func oracleC02(x *Exec, r *StepRec) {
 		if post.Active15[rid] {
 			continue
 		}
-		okStep := (r.Kind == "msg" && (r.Msg.T == "respond" || r.Msg.T == "call")) || r.Kind == "end"
+		okStep := (r.Kind == "msg" && (r.Msg.T == "respond" || r.Msg.T == "call")) || r.Kind == "end" || r.Kind == "export"
 		if !okStep {
 			x.viol("C02", "unsettled_marker_removed", fmt.Sprintf("pending request %s lost its marker in %s", rid[:16], describeStep(r)), nil)
 		}
